@@ -111,7 +111,9 @@ def atoms():
               "\x40\x00\x00\x00\x00\x00\x00\x00", "__DDS_INT__2147483648",
               "ca978112ca1bbdcafac231b39a23dc4da786eff8147c4e72b9807785afee48bb",
               # strings that spell other atoms (str / repr of numbers, None, booleans, containers)
-              "None", "True", "False", "-1", "2147483648", "0.0", "-0.0", "nan", "[]", "()", "{}", "['a']", "('a',)", "{'k': 1}"]:
+              "None", "True", "False", "-1", "2147483648", "0.0", "-0.0", "nan", "[]", "()", "{}", "['a']", "('a',)", "{'k': 1}",
+              # different strings that a text normalisation, a case folding or a stripping would identify
+              "caf\u00e9", "cafe\u0301", "\u00c5", "\u212b", "\u03a9", "\u2126", "\ufb01", "fi", "A", " a", "a ", "a\n", "\ufeffa", "a\u200b"]:
         a.append(jv("str", s))
     for idx, t in enumerate(TEMPORALS):
         a.append(jv("temporal", repr(t), idx=idx))
